@@ -49,6 +49,10 @@ func c11Rules(tier string) []Rule {
 		}},
 		core.Custom{ID: "C11.COPY4", Kind: "COPY", Run: c11FromNode},
 		core.Custom{ID: "C11.SYM1", Kind: "SYM", Run: c11PodSymmetry},
+		// re-accounting compares a snapshot taken before the change with the live node
+		core.Custom{ID: "C11.SNAP1", Kind: "PROV", Run: c11Snapshots},
+		// the per-node volume aggregate is a set union without multiplicities: it can only be rebuilt, never subtracted from
+		core.Custom{ID: "C11.AGG1", Kind: "WSET", Run: c11VolumeAggregate},
 
 		// ---- constructors
 		MPT{ID: "C11.POST1a", Fn: nfnc, Ret: core.RetAny, Gates: gates(G(`instr:` + upr + `\$0, phi\(\$2\|state\.NewNode\(\)\), &local<state\.StateNode>\)$`))},
@@ -199,10 +203,91 @@ func deepCopyFresh(w *core.World, id, fnName, typ string) []core.Result {
 			out = append(out, core.Bad(id, "COPY", construct+"."+f, w.Pos(fn.Pos()), fmt.Sprintf("%s: reference-typed field %s.%s keeps pointing at the original's memory (no fresh allocation): a simulation mutating the copy mutates cluster state", fnName, typ, f)))
 		}
 	}
+	// no store after the initial `*out = *in` may put shared memory into the copy: every stored value whose type can
+	// hold a reference is fresh (allocation, make, nil, or the result of a DeepCopy call)
+	nst := 0
+	for _, b := range fn.Blocks {
+		for _, in := range b.Instrs {
+			var addr, val ssa.Value
+			switch x := in.(type) {
+			case *ssa.Store:
+				addr, val = x.Addr, x.Val
+			case *ssa.MapUpdate:
+				addr, val = x.Map, x.Value
+			default:
+				continue
+			}
+			if _, local := addr.(*ssa.Alloc); local {
+				continue // spill of a range variable etc.
+			}
+			if w.RenderInstr(in) == "store $1 = $0" || !containsRef(val.Type(), 0) {
+				continue
+			}
+			nst++
+			if !freshValue(w, val) {
+				out = append(out, core.Bad(id, "COPY", construct+":alias", w.InstrPos(in), fmt.Sprintf("%s stores a value that still references the original's memory into the copy: `%s` — a simulation mutating the copy mutates cluster state", fnName, clipStr(w.RenderInstr(in), 110))))
+			}
+		}
+	}
 	if len(out) == 0 {
-		out = append(out, core.OK(id, "COPY", construct, nref, fmt.Sprintf("%d reference-typed fields, all freshly allocated", nref)))
+		out = append(out, core.OK(id, "COPY", construct, nref+nst, fmt.Sprintf("%d reference-typed fields, all freshly allocated; %d reference-carrying stores, all of fresh values", nref, nst)))
 	}
 	return out
+}
+
+func freshValue(w *core.World, v ssa.Value) bool {
+	switch x := v.(type) {
+	case *ssa.Alloc, *ssa.MakeMap, *ssa.MakeSlice:
+		return true
+	case *ssa.Const:
+		return x.IsNil() || x.Value == nil
+	case *ssa.Call:
+		return strings.Contains(w.CalleeName(x.Common()), "DeepCopy")
+	case *ssa.UnOp:
+		// load of a local that holds a fresh value (e.g. `outVal = make(...)` spilled)
+		if a, ok := x.X.(*ssa.Alloc); ok {
+			n, fresh := 0, true
+			for _, r := range *a.Referrers() {
+				if st, ok := r.(*ssa.Store); ok && st.Addr == a {
+					n++
+					fresh = fresh && freshValue(w, st.Val)
+				}
+			}
+			return n > 0 && fresh
+		}
+	case *ssa.Slice:
+		return freshValue(w, x.X)
+	case *ssa.ChangeType:
+		return freshValue(w, x.X)
+	case *ssa.Phi:
+		for _, e := range x.Edges {
+			if e != v && !freshValue(w, e) {
+				return false
+			}
+		}
+		return true
+	}
+	return false
+}
+
+// containsRef: can a value of type t hold a reference to shared memory?
+func containsRef(t types.Type, depth int) bool {
+	if depth > 6 {
+		return true
+	}
+	switch u := t.Underlying().(type) {
+	case *types.Pointer, *types.Map, *types.Slice, *types.Chan, *types.Interface, *types.Signature:
+		return true
+	case *types.Struct:
+		for i := 0; i < u.NumFields(); i++ {
+			if containsRef(u.Field(i).Type(), depth+1) {
+				return true
+			}
+		}
+	case *types.Array:
+		return containsRef(u.Elem(), depth+1)
+	}
+	return false
 }
 
 // aggregateFields: fields of StateNode that fn (receiver $0) mutates: map updates / deletes / stores on $0.f and
@@ -394,4 +479,111 @@ func postAfterCall(w *core.World, fn *ssa.Function, from ssa.Instruction, re str
 		stack = append(stack, x.Succs...)
 	}
 	return false, ""
+}
+
+// C11.SNAP1: at every updateNodePoolResources(old, new) call the two arguments are different objects; when old is a
+// ShallowCopy of new, the copy is taken before the stores into new that the call accounts for.
+func c11Snapshots(w *core.World, id string) []core.Result {
+	re := regexp.MustCompile(`^call \(\*state\.Cluster\)\.updateNodePoolResources\(`)
+	var out []core.Result
+	n := 0
+	for _, fn := range w.Fns {
+		if core.IsTestSupport(fn) {
+			continue
+		}
+		for _, site := range w.Sites(fn, re, false) {
+			call := site.(*ssa.Call)
+			args := call.Call.Args
+			if len(args) != 3 {
+				continue
+			}
+			n++
+			name := core.FnName(fn)
+			construct := "PROV:updateNodePoolResources@" + name
+			oldV, newV := args[1], args[2]
+			ro, rn := w.Render(oldV), w.Render(newV)
+			if rn == "nil" || ro == "nil" {
+				continue // removal / first sight
+			}
+			if ro == rn || oldV == newV {
+				out = append(out, core.Bad(id, "PROV", construct, w.InstrPos(site), "updateNodePoolResources is given the live node as its own 'old' snapshot (`"+clipStr(ro, 80)+"`): the difference is always empty and the per-NodePool totals are never re-accounted"))
+				continue
+			}
+			if sc, ok := oldV.(*ssa.Call); ok && w.CalleeName(sc.Common()) == "(*state.StateNode).ShallowCopy" {
+				if w.Render(sc.Call.Args[0]) != rn {
+					out = append(out, core.Bad(id, "PROV", construct, w.InstrPos(site), "the snapshot is a copy of `"+clipStr(w.Render(sc.Call.Args[0]), 60)+"`, not of the node being re-accounted"))
+					continue
+				}
+				// every store through the live node that precedes the call in its block comes after the snapshot
+				seenCopy := false
+				for _, in := range site.Block().Instrs {
+					if in == ssa.Instruction(sc) {
+						seenCopy = true
+					}
+					if in == site {
+						break
+					}
+					if st, ok := in.(*ssa.Store); ok && strings.HasPrefix(w.Render(st.Addr), rn+".") && !seenCopy {
+						out = append(out, core.Bad(id, "PROV", construct, w.InstrPos(in), "the node is modified before the snapshot is taken: old and new are equal when compared"))
+					}
+				}
+				if sc.Block() != site.Block() {
+					out = append(out, core.Result{ID: id, Kind: "PROV", Construct: construct, Status: core.Undecided, Pos: w.InstrPos(site), Msg: "snapshot and re-accounting are in different blocks (idiom not recognised)"})
+				}
+			}
+		}
+	}
+	if n < 8 {
+		return []core.Result{core.Bad(id, "PROV", "PROV:updateNodePoolResources", "", fmt.Sprintf("vacuous: %d call sites found, 8 confirmed by hand", n))}
+	}
+	if len(out) == 0 {
+		out = append(out, core.OK(id, "PROV", "PROV:updateNodePoolResources:snapshots", n, fmt.Sprintf("%d call sites: old is nil, a distinct object, or a ShallowCopy taken before the change", n)))
+	}
+	return out
+}
+
+// C11.AGG1: VolumeUsage.volumes (driver → set of volume ids, the union over the node's pods, no counts) is never
+// subtracted from: pods may share a claim, so removing a pod's ids would drop ids other pods still mount.
+func c11VolumeAggregate(w *core.World, id string) []core.Result {
+	fields, st := w.StructFields("scheduling.VolumeUsage")
+	if st == nil {
+		return []core.Result{core.Anchor(id, "WSET", "type scheduling.VolumeUsage")}
+	}
+	construct := "WSET:scheduling.VolumeUsage.volumes"
+	ok := false
+	for i, f := range fields {
+		if f == "volumes" && core.TypeStr(st.Field(i).Type()) == "scheduling.Volumes" {
+			ok = true
+		}
+	}
+	if !ok {
+		return []core.Result{{ID: id, Kind: "WSET", Construct: construct, Status: core.Undecided, Msg: "VolumeUsage.volumes is no longer a scheduling.Volumes set-union: the aggregate's representation changed and this row must be re-audited"}}
+	}
+	rem := regexp.MustCompile(`^call (delete|clear|\(apim/util/sets\.Set\[string\]\)\.(Delete|Clear|PopAny)|\(scheduling\.Volumes\)\.\w*(Delete|Remove)\w*)\(\$0\.volumes\b`)
+	rebuilt := regexp.MustCompile(`^store \$0\.volumes = makemap<scheduling\.Volumes>$`)
+	var out []core.Result
+	n := 0
+	for _, fn := range w.Fns {
+		if !strings.HasPrefix(core.FnName(core.RootFn(fn)), "(*scheduling.VolumeUsage).") {
+			continue
+		}
+		n++
+		for _, s := range w.Sites(fn, rem, false) {
+			out = append(out, core.Bad(id, "WSET", construct, w.InstrPos(s), "ids are removed from the node's aggregate volume set in place (`"+clipStr(w.RenderInstr(s), 100)+"`): a claim shared with a pod that stays is dropped and volume limits are under-counted"))
+		}
+	}
+	dp := w.Fn("(*scheduling.VolumeUsage).DeletePod")
+	if dp == nil {
+		return []core.Result{core.Anchor(id, "WSET", "(*scheduling.VolumeUsage).DeletePod")}
+	}
+	if len(w.Sites(dp, rebuilt, false)) == 0 {
+		out = append(out, core.Bad(id, "WSET", construct+":rebuild", w.Pos(dp.Pos()), "DeletePod does not rebuild the aggregate from the remaining pods"))
+	}
+	if n < 4 {
+		return []core.Result{core.Bad(id, "WSET", construct, "", fmt.Sprintf("vacuous: %d VolumeUsage methods found", n))}
+	}
+	if len(out) == 0 {
+		out = append(out, core.OK(id, "WSET", construct, n, fmt.Sprintf("%d methods: no removal from the aggregate; DeletePod rebuilds it", n)))
+	}
+	return out
 }
